@@ -23,6 +23,7 @@ FIX_PROPS = {
 }
 # extra checks worth running for a seed besides its own property
 ALSO = {"C19-B": ["C02"], "C14-B": ["C06"], "C18-B": ["C06"], "C05-A": ["C12"], "C12-B": ["C05"], "C03-A": ["C07", "C01"], "C07-B": ["C03"],
+        "C02-N": ["C18"], "C18-N": ["C02"], "C05-N": ["C12"], "C12-N": ["C05"], "C04-N": ["C18"],
         "C02-B": ["C01"], "C04-A": ["C01"], "C01-B": ["C04"], "C06-B": ["C12"], "C13-A": ["C08"], "C08-B": ["C09"]}
 
 
